@@ -440,6 +440,7 @@ impl Interp {
         }
         let index = self.index;
         self.index += 1;
+        crate::hang::beat();
         let outcome = catch_unwind(AssertUnwindSafe(|| {
             self.exec_inner(line);
             if !self.sh.borrow().over_budget {
